@@ -404,6 +404,107 @@ fn run_stage(at_stage: usize, restart: Option<u64>) -> Result<u64, String> {
     Ok(vcheck::fp(&got))
 }
 
+
+// ---- a restarted module against its own first (fresh) incarnation ------------------------
+
+/// Every incarnation runs the same script relative to its start: N tasks that log their first
+/// poll, sleep one second and log again; at +2 s a handler feeds N values to a draining task; at
+/// +3 s a handler spawns N tasks. The first incarnation is shut down at 5 s.
+struct Twin {
+    log: Arc<Mutex<Vec<(u32, String, u64)>>>,
+    n: usize,
+    restart: u64,
+    inc: u32,
+    base: u64,
+    tx: Option<tokio::sync::mpsc::UnboundedSender<u32>>,
+}
+fn ms() -> u64 {
+    SimTime::now().as_millis() as u64
+}
+impl Module for Twin {
+    fn reset(&mut self) {
+        self.tx = None;
+    }
+    fn at_sim_start(&mut self, _: usize) {
+        self.inc += 1;
+        self.base = ms();
+        let (inc, base) = (self.inc, self.base);
+        for i in 0..self.n {
+            let l = self.log.clone();
+            tokio::spawn(async move {
+                l.lock().unwrap().push((inc, format!("first{i}"), ms() - base));
+                sleep(Duration::from_secs(1)).await;
+                l.lock().unwrap().push((inc, format!("slept{i}"), ms() - base));
+            });
+        }
+        let (tx, mut rx) = tokio::sync::mpsc::unbounded_channel::<u32>();
+        self.tx = Some(tx);
+        let l = self.log.clone();
+        tokio::spawn(async move {
+            while let Some(v) = rx.recv().await {
+                l.lock().unwrap().push((inc, format!("got{v}"), ms() - base));
+            }
+        });
+        schedule_in(Message::default().kind(2), Duration::from_secs(2));
+        schedule_in(Message::default().kind(3), Duration::from_secs(3));
+        if inc == 1 {
+            schedule_in(Message::default().kind(9), Duration::from_secs(5));
+        }
+    }
+    fn handle_message(&mut self, m: Message) {
+        let (inc, base) = (self.inc, self.base);
+        match m.header().kind {
+            2 => {
+                for i in 0..self.n {
+                    let _ = self.tx.as_ref().unwrap().send(i as u32);
+                }
+            }
+            3 => {
+                for i in 0..self.n {
+                    let l = self.log.clone();
+                    tokio::spawn(async move {
+                        l.lock().unwrap().push((inc, format!("burst{i}"), ms() - base));
+                    });
+                }
+            }
+            9 => current().shutdow_and_restart_in(Duration::from_millis(self.restart)),
+            _ => {}
+        }
+    }
+}
+
+fn run_twin(n: usize, restart: u64) -> Result<u64, String> {
+    let got = quiet_catch(move || {
+        let log: Arc<Mutex<Vec<(u32, String, u64)>>> = Default::default();
+        let mut sim = Sim::new(());
+        sim.node("t", Twin { log: log.clone(), n, restart, inc: 0, base: 0, tx: None });
+        let r = Builder::seeded(1).quiet().max_time(100.0.into()).build(sim.freeze()).run();
+        drop(r);
+        let g = log.lock().unwrap().clone();
+        g
+    })
+    .map_err(|m| format!("panicked: {m}"))?;
+    let of = |k: u32| -> Vec<(String, u64)> { got.iter().filter(|e| e.0 == k).map(|e| (e.1.clone(), e.2)).collect() };
+    let (a, b) = (of(1), of(2));
+    if a.len() != 4 * n {
+        return Err(format!("the fresh incarnation logged {} of {} steps", a.len(), 4 * n));
+    }
+    if a != b {
+        let i = a.iter().zip(b.iter()).position(|(x, y)| x != y).unwrap_or(a.len().min(b.len()));
+        return Err(format!(
+            "module restarted {restart} ms after its shutdown, {n} tasks per burst: the restarted incarnation does not behave like the fresh one; first difference at step {i}: fresh {:?}, restarted {:?} (times relative to the incarnation's start, ms; {} vs {} steps)",
+            a.get(i),
+            b.get(i),
+            a.len(),
+            b.len()
+        ));
+    }
+    if got.iter().any(|e| e.0 > 2) {
+        return Err("more than one restart".into());
+    }
+    Ok(vcheck::fp(&a))
+}
+
 struct C09;
 
 impl Property for C09 {
@@ -412,7 +513,7 @@ impl Property for C09 {
     }
     fn rule(&self, tier: Tier) -> String {
         format!(
-            "timelines in half-second units: first shutdown at {{4,6}} x restart delay {{none,0,2,5}} x requested from {{handler, task}} x old task deadline {{2,4,6,7,11,30}} x new task sleep {{1,3}} x second shutdown {{none, +2 no restart, +2 restart 2, +3 restart 0}}              x message route {{to the victim, through a transit gate of the victim}} x {{direct, over a latency channel}} x restart requested by delay or (direct case) by absolute time x every set of up to {} arrival times from {{1,3,4,5,6,8,9,11,13,16}}; plus shutdown requested in each of 3 start stages x restart {{none,0,3}};              oracle: expectation computed from the plan: no callback, task step or timer of the victim inside an inert window, messages inside it dropped (also through its transit gate) and never delivered later, reset once per shutdown, start stages once at exactly the restart time, old tasks never resume, task captures dropped, peer receives exactly the echoes;              an event at exactly the shutdown/restart instant is a tie and accepted either way; non-trivial = timeline with a message or deadline strictly inside an inert window",
+            "timelines in half-second units: first shutdown at {{4,6}} x restart delay {{none,0,2,5}} x requested from {{handler, task}} x old task deadline {{2,4,6,7,11,30}} x new task sleep {{1,3}} x second shutdown {{none, +2 no restart, +2 restart 2, +3 restart 0}}              x message route {{to the victim, through a transit gate of the victim}} x {{direct, over a latency channel}} x restart requested by delay or (direct case) by absolute time x every set of up to {} arrival times from {{1,3,4,5,6,8,9,11,13,16}}; plus shutdown requested in each of 3 start stages x restart {{none,0,3}}; plus a module whose every incarnation runs one script (N tasks polled at start and after a sleep, N values drained by one task, N tasks spawned by a handler; N in {{1,2,3,59..63,70,128,129,200}}, restart delay {{0,1,1500}} ms): the restarted incarnation's log, relative to its start, must equal the fresh one's;              oracle: expectation computed from the plan: no callback, task step or timer of the victim inside an inert window, messages inside it dropped (also through its transit gate) and never delivered later, reset once per shutdown, start stages once at exactly the restart time, old tasks never resume, task captures dropped, peer receives exactly the echoes;              an event at exactly the shutdown/restart instant is a tie and accepted either way; non-trivial = timeline with a message or deadline strictly inside an inert window",
             tier.pick(2, 3)
         )
     }
@@ -423,7 +524,7 @@ impl Property for C09 {
         ]
     }
     fn required_features(&self, _tier: Tier) -> Vec<&'static str> {
-        vec!["same_instant_tie", "message_inside_inert_window", "repeated_cycle", "request_from_task", "transit_gate_route", "latency_channel", "shutdown_in_start_stage"]
+        vec!["same_instant_tie", "message_inside_inert_window", "repeated_cycle", "request_from_task", "transit_gate_route", "latency_channel", "shutdown_in_start_stage", "restarted_vs_fresh_incarnation"]
     }
     fn explore(&self, ctx: &mut Ctx) {
         if ctx.is_first_shard() {
@@ -435,6 +536,20 @@ impl Property for C09 {
                         Ok(o) => ctx.outcome(o),
                         Err(d) => ctx.violation("violation", || json!({"start_stage": at_stage, "restart": restart}), d),
                     }
+                }
+            }
+        }
+        for n in [1usize, 2, 3, 59, 60, 61, 62, 63, 70, 128, 129, 200] {
+            for restart in [0u64, 1, 1500] {
+                if !ctx.mine() {
+                    continue;
+                }
+                ctx.begin(|| json!({"twin_tasks": n, "restart_ms": restart}));
+                ctx.out.evaluations += 1;
+                ctx.hit("restarted_vs_fresh_incarnation");
+                match run_twin(n, restart) {
+                    Ok(o) => ctx.outcome(o),
+                    Err(d) => ctx.violation("violation", || json!({"twin_tasks": n, "restart_ms": restart}), d),
                 }
             }
         }
@@ -517,6 +632,9 @@ impl Property for C09 {
         }
     }
     fn replay(&self, case: &Value) -> Result<(), String> {
+        if let Some(n) = case.get("twin_tasks") {
+            return run_twin(n.as_u64().unwrap() as usize, case["restart_ms"].as_u64().unwrap()).map(|_| ());
+        }
         if let Some(st) = case.get("start_stage") {
             return run_stage(st.as_u64().unwrap() as usize, case["restart"].as_u64()).map(|_| ());
         }
